@@ -116,7 +116,7 @@ class E2Check:
             budget = 60 if self.tier == "quick" else 400
             for n in names:
                 try:
-                    r = natcheck.search(P, n, self.prop, self.seed, budget)
+                    r = natcheck.search(P, n, self.prop, self.seed, budget, wall_s=60 if self.tier == "quick" else 600)
                 except Exception as e:
                     r = {"kind": "native-harness-error", "exception": repr(e), "trace": traceback.format_exc()[-600:]}
                     continue
